@@ -86,6 +86,7 @@ InitState ==
    originWait |-> {},                      \* _origin_waiting_answer: set of [hbh, e2e, oh]
    sentAns |-> <<>>,                       \* _sent_answers: sequence of [oh, ids]
    appReady |-> [a \in Apps |-> FALSE],
+   reg |-> <<>>,                           \* applications registered after start (AppCfg[a].late), in the order of their add_application calls
    pipe |-> <<>>,
    io |-> [rlist |-> <<>>, wlist |-> <<>>, deadline |-> NodeCfg.wakeup, done |-> FALSE],
    e2e |-> 1000,
@@ -160,6 +161,20 @@ ConnClose(S, c, signal) ==
   LET S1 == [S EXCEPT !.conn[c].st = "CLOSED", !.conn[c].rdStop = TRUE, !.conn[c].wrStop = TRUE]
   IN IF signal THEN [S1 EXCEPT !.pipe = Append(@, c)] ELSE S1
 
+\* ------------------------------------------------------------------ registered applications
+\* Node.add_application may be called at any time: applications marked `late` are registered by an environment action;
+\* until then they are in none of the node's tables (self.applications, _peer_routes)
+IsLateApp(a) == "late" \in DOMAIN AppCfg[a] /\ AppCfg[a].late
+Reg(S) == {a \in Apps : ~IsLateApp(a)} \cup {S.reg[i] : i \in 1..Len(S.reg)}
+RegOrder(S) == SelectSeq(AppOrder, LAMBDA a : ~IsLateApp(a)) \o S.reg
+\* (a basic application's start() does nothing; the application is flagged ready at once if one of the peers it is given has a
+\*  ready connection - pinned F13b: readiness was not looked at, the application stayed not ready until a connection became
+\*  ready again)
+EnvAddApp(S, a) ==
+  LET S1 == [S EXCEPT !.reg = Append(@, a)]
+      rdy == \E p \in AppCfg[a].peers : S.peer[p].conn # 0 /\ S.conn[S.peer[p].conn].st \in {"READY", "WAITDWA"}
+  IN IF rdy /\ "F13b" \notin Pinned THEN [S1 EXCEPT !.appReady[a] = TRUE] ELSE S1
+
 \* ------------------------------------------------------------------ readiness of applications
 AppPeers(a) == AppCfg[a].peers
 AnyPeerReady(S, a) == \E p \in AppPeers(a) : S.peer[p].conn # 0 /\ S.conn[S.peer[p].conn].st \in READYSTATES
@@ -167,7 +182,7 @@ AnyPeerReady(S, a) == \E p \in AppPeers(a) : S.peer[p].conn # 0 /\ S.conn[S.peer
 \* Node._flag_connection_as_ready
 FlagReady(S, c) ==
   LET S1 == [S EXCEPT !.conn[c].st = "READY"]
-  IN [S1 EXCEPT !.appReady = [a \in Apps |-> IF \E p \in AppPeers(a) : S1.peer[p].conn = c THEN TRUE ELSE S1.appReady[a]]]
+  IN [S1 EXCEPT !.appReady = [a \in Apps |-> IF a \in Reg(S1) /\ \E p \in AppPeers(a) : S1.peer[p].conn = c THEN TRUE ELSE S1.appReady[a]]]
 
 \* Node.remove_peer_connection
 RemovePeerConnection(S, c, reason) ==
@@ -185,7 +200,7 @@ RemovePeerConnection(S, c, reason) ==
                                     !.peer[p].reason = IF @ = 0 THEN reason ELSE @]
       i  == PwIdx(S2, PwKey(S2, c))
       S3 == IF i = 0 THEN S2 ELSE [S2 EXCEPT !.peerWait = SelectSeq(@, LAMBDA r : r.h # PwKey(S2, c))]
-  IN [S3 EXCEPT !.appReady = [a \in Apps |-> IF AnyPeerReady(S3, a) THEN S3.appReady[a] ELSE FALSE]]
+  IN [S3 EXCEPT !.appReady = [a \in Apps |-> IF a \notin Reg(S3) \/ AnyPeerReady(S3, a) THEN S3.appReady[a] ELSE FALSE]]
 
 \* Node.close_connection_socket
 \* (lostOut counts messages the node had accepted for a connection and dropped by closing it cleanly - R_CLEAN - with the
@@ -223,8 +238,8 @@ AssignPeerConnection(S, c) ==
           ELSE S1
 
 \* ------------------------------------------------------------------ base protocol handlers
-NodeAuth == {AppCfg[a].id : a \in {x \in Apps : AppCfg[x].auth}}
-NodeAcct == {AppCfg[a].id : a \in {x \in Apps : AppCfg[x].acct}}
+NodeAuth(S) == {AppCfg[a].id : a \in {x \in Reg(S) : AppCfg[x].auth}}
+NodeAcct(S) == {AppCfg[a].id : a \in {x \in Reg(S) : AppCfg[x].acct}}
 
 \* m.auth / m.acct: sets of application ids advertised in a CER/CEA; relay = 0xffffffff present
 ReceiveCer(S, c, m) ==
@@ -233,7 +248,7 @@ ReceiveCer(S, c, m) ==
   THEN SendMessage([S EXCEPT !.conn[c].st = "CLOSING"], c, [ans EXCEPT !.rc = 3010])
   ELSE LET S1 == IF S.conn[c].nodeName = "" THEN [S EXCEPT !.conn[c].nodeName = m.oh] ELSE S
            \* election: connections whose origin_host attribute equals the remote host (never, see DESIGN)
-           common == (NodeAuth \cap m.auth) \cup (NodeAcct \cap m.acct)
+           common == (NodeAuth(S) \cap m.auth) \cup (NodeAcct(S) \cap m.acct)
        IN IF common = {} /\ ~m.relay
           THEN SendMessage(S1, c, [ans EXCEPT !.rc = 5010])
           ELSE LET S2 == [S1 EXCEPT !.conn[c].originHost = NodeCfg.host, !.conn[c].hostId = m.oh]
@@ -257,14 +272,14 @@ ReceiveDpa(S, c, m) == [S EXCEPT !.conn[c].st = "CLOSING", !.pipe = Append(@, c)
 \* ------------------------------------------------------------------ application routing
 \* _peer_routes[realm]: apps (in registration order) with their peer lists; realm served iff it has a route
 RealmsOf(a) == {PeerCfg[p].realm : p \in AppCfg[a].peers} \cup (IF AppCfg[a].peers = {} THEN {} ELSE AppCfg[a].realms)
-ServedRealms == {NodeCfg.realm} \cup UNION {RealmsOf(a) : a \in Apps} \cup {PeerCfg[p].realm : p \in {q \in Peers : PeerCfg[q].default}}
+ServedRealms(S) == {NodeCfg.realm} \cup UNION {RealmsOf(a) : a \in Reg(S)} \cup {PeerCfg[p].realm : p \in {q \in Peers : PeerCfg[q].default}}
 \* peers of app a registered under realm r
 RoutePeers(a, r) == {p \in AppCfg[a].peers : PeerCfg[p].realm = r \/ r \in AppCfg[a].realms}
-AppsInRealm(r) == SelectSeq(AppOrder, LAMBDA a : RoutePeers(a, r) # {})
+AppsInRealm(S, r) == SelectSeq(RegOrder(S), LAMBDA a : RoutePeers(a, r) # {})
 
 PickApp(S, c, m) ==      \* first app of the realm with the id whose peer list has this connection's peer (any if unknown)
   LET p == PeerOf(S, c)
-      cands == SelectSeq(AppsInRealm(m.realm), LAMBDA a : AppCfg[a].id = m.app /\ (p = "" \/ p \in RoutePeers(a, m.realm)))
+      cands == SelectSeq(AppsInRealm(S, m.realm), LAMBDA a : AppCfg[a].id = m.app /\ (p = "" \/ p \in RoutePeers(a, m.realm)))
   IN IF cands = <<>> THEN "" ELSE cands[1]
 
 PwAdd(S, h, id) ==
@@ -296,7 +311,7 @@ SubmitAnswer(S, a, m) ==        \* Application.send_answer(m) -> state (+ observ
 ReceiveAppRequest(S, c, m) ==   \* -> [S, raised]
   IF m.realm = "" THEN (IF m.typed THEN [S |-> S, raised |-> TRUE]       \* None.decode() raises
                         ELSE [S |-> SendMessage(S, c, Answer(m, 3007)), raised |-> FALSE])
-  ELSE IF m.realm \notin ServedRealms THEN [S |-> SendMessage(S, c, Answer(m, 3003)), raised |-> FALSE]
+  ELSE IF m.realm \notin ServedRealms(S) THEN [S |-> SendMessage(S, c, Answer(m, 3003)), raised |-> FALSE]
   ELSE LET a == PickApp(S, c, m) IN
        IF a = "" THEN [S |-> SendMessage(S, c, Answer(m, 3007)), raised |-> FALSE]
        ELSE LET S1 == Emit(PwAdd(S, PwKey(S, c), PwId(m)), [ev |-> "app_req", a |-> a, c |-> c, m |-> m])
@@ -325,9 +340,9 @@ ReceiveAppAnswer(S, c, m) ==
 \* _peer_routes[realm][app] in registration order; "_default" peers of a realm in add_peer order
 RouteSeq(a, r) == SelectSeq(PeerOrder, LAMBDA p : p \in RoutePeers(a, r))
 DefaultSeq(r) == SelectSeq(PeerOrder, LAMBDA p : PeerCfg[p].default /\ PeerCfg[p].realm = r)
-HasRoutes(r) == r = NodeCfg.realm \/ (\E a \in Apps : RoutePeers(a, r) # {}) \/ DefaultSeq(r) # <<>>
-PeerList(a, r) == IF ~HasRoutes(r) THEN <<>> ELSE IF RouteSeq(a, r) # <<>> THEN RouteSeq(a, r) ELSE DefaultSeq(r)
-UsablePeers(S, a, r) == SelectSeq(PeerList(a, r), LAMBDA p : S.peer[p].conn # 0 /\ S.conn[S.peer[p].conn].st \in READYSTATES)
+HasRoutes(S, r) == r = NodeCfg.realm \/ (\E a \in Reg(S) : RoutePeers(a, r) # {}) \/ DefaultSeq(r) # <<>>
+PeerList(S, a, r) == IF ~HasRoutes(S, r) THEN <<>> ELSE IF a \in Reg(S) /\ RouteSeq(a, r) # <<>> THEN RouteSeq(a, r) ELSE DefaultSeq(r)
+UsablePeers(S, a, r) == SelectSeq(PeerList(S, a, r), LAMBDA p : S.peer[p].conn # 0 /\ S.conn[S.peer[p].conn].st \in READYSTATES)
 
 \* sender k of application a sends a request to realm r, waits `timeout`; `pick` is what the selection callback returns
 SendRequest(S, k, a, r, timeout, pick) ==
